@@ -32,7 +32,7 @@ RULE = ("cases: random rooted trees (1..6 nodes quick, ..8 thorough; random chil
         "from {none,1,2,3}) x random symbolic Hamiltonians (1..8 terms, supports 1..N, labels shared between "
         "sites of equal dimension, explicit identity labels, Fraction prefactors incl. negative, symbols shared "
         "or distinct) x 4 methods; three streams: 'clean' (pairwise distinct label assignments), 'prop' (equal "
-        "assignments with different coefficients), 'dup' (fully identical terms), 'zero' (some prefactor 0), 'lowrank' (coefficient matrix of prescribed low rank across an edge).  non-trivial = distinct "
+        "assignments with different coefficients), 'dup' (fully identical terms), 'zero' (some prefactor 0), 'lowrank' / 'planted' (coefficient matrix of prescribed low rank across an edge, C12's generators).  non-trivial = distinct "
         "(tree, Hamiltonian, method) with >= 2 terms and >= 2 nodes")
 PARTIAL = [
     "combine_subtrees / cut_and_optimise / _reconnect_hyperedges / _copy_node (SGE, BIPARTITE) are not modelled line "
@@ -125,6 +125,36 @@ def partial_coefficient_loss(got, want) -> bool:
     return dev
 
 
+def spurious_summands_only(got, want) -> bool:
+    """Second observed shape of F-C01d: every summand of the Hamiltonian is present with the right coefficient and
+    the diagram carries additional summands (label assignments that do not occur in the Hamiltonian at all)."""
+    if got is None:
+        return False
+    if any(got.get(k, Fraction(0)) != w for k, w in want.items()):
+        return False
+    return any(k not in want for k in got)
+
+
+def fc01d_deviation(got, want) -> bool:
+    """Every deviating (assignment, monomial) key is a partial loss (0 < got/want < 1) or a spurious summand
+    (absent from the Hamiltonian); at least one key deviates.  Missing summands, overshoot or sign changes are not
+    the recorded defect."""
+    if got is None:
+        return False
+    dev = False
+    for k in set(got) | set(want):
+        g, w = got.get(k, Fraction(0)), want.get(k, Fraction(0))
+        if g == w:
+            continue
+        if w == 0:
+            dev = True              # spurious summand
+            continue
+        if g == 0 or not (0 < g / w < 1):
+            return False
+        dev = True
+    return dev
+
+
 def fc01d_input(case) -> bool:
     """Input part of the F-C01d signature: distinct padded assignments, no zero prefactor, at least two different
     coefficient symbols (counting '1'), at least three nodes (two cuts)."""
@@ -147,7 +177,9 @@ def known_signature(case, method: str, outcome: str) -> Optional[str]:
               [equal assignments with different coefficients are exact]
       F-C01c  SGE/BIPARTITE, some term has prefactor 0 (any manifestation, see the comment below).
       F-C01d  SGE only, distinct assignments, no zero prefactor, >= 2 different symbols, >= 3 nodes, and the diagram
-              deviates from the Hamiltonian only by coefficients with 0 < got/want < 1 (`partial_coefficient_loss`).
+              deviates from the Hamiltonian only by coefficients with 0 < got/want < 1 (`partial_coefficient_loss`)
+              or only by additional summands whose assignment does not occur in the Hamiltonian
+              (`spurious_summands_only`).
     """
     c = classify(case)
     if method == "TREE":
@@ -712,6 +744,11 @@ def run(ctx):
         c = _c12.gen_lowrank_case(rng, min(max_nodes, 5), max_dim)
         c["kind"] = "ham"
         cases.append(c)
+    # planted symbolic low-rank Hamiltonians (per-entry symbols; second shape of F-C01d was found here)
+    for k in range(n_ham // 6):
+        c = _c12.gen_planted_case(rng, 4, max_dim)
+        c["kind"] = "ham"
+        cases.append(c)
     # hand-made corner cases (always)
     cases.extend(fixed_cases())
     # Lean answers in one batch (BASE model: denotation, diagram, padded Hamiltonian)
@@ -869,7 +906,7 @@ def run_case(ctx, case, model_out: Optional[List[str]] = None):
         if method in ("SGE", "BIPARTITE") and got_formal is None:
             outcome = "wrong-other"
         if method == "SGE" and outcome == "wrong-other" and not cls["dup_full"] and \
-                partial_coefficient_loss(got_formal, want_formal):
+                fc01d_deviation(got_formal, want_formal):
             outcome = "wrong-partial-loss"
         fail(outcome, "; ".join(wrong[:3]))
         ctx.tally("outcome", f"{method}:{outcome}")
